@@ -44,14 +44,31 @@ import (
 //go:embed baseline_funcs.txt
 var baselineFuncsTxt string
 
-func baselineSet() map[string]bool {
-	m := map[string]bool{}
+// baselineSet: function key -> number of function literals in its body, for the pinned tree.
+func baselineSet() map[string]int {
+	m := map[string]int{}
 	for _, l := range strings.Split(baselineFuncsTxt, "\n") {
 		if l = strings.TrimSpace(l); l != "" && !strings.HasPrefix(l, "#") {
-			m[l] = true
+			k, n, _ := strings.Cut(l, "\t")
+			c := 0
+			fmt.Sscanf(n, "%d", &c)
+			m[k] = c
 		}
 	}
 	return m
+}
+
+func countFuncLits(fd *ast.FuncDecl) int {
+	n := 0
+	if fd.Body != nil {
+		ast.Inspect(fd.Body, func(m ast.Node) bool {
+			if _, ok := m.(*ast.FuncLit); ok {
+				n++
+			}
+			return true
+		})
+	}
+	return n
 }
 
 func recvTypeName(fd *ast.FuncDecl) string {
@@ -87,7 +104,18 @@ func funcKey(relDir string, fd *ast.FuncDecl) string {
 // listFuncKeys parses (no type checking) every non-test .go file below root/sub and returns the keys
 // of all function declarations, relative to root.
 func listFuncKeys(root, sub string) ([]string, error) {
+	m, err := listFuncLits(root, sub)
 	var keys []string
+	for k := range m {
+		keys = append(keys, k)
+	}
+	sort.Strings(keys)
+	return keys, err
+}
+
+// listFuncLits: function key -> number of function literals in the body (summed over same-named keys).
+func listFuncLits(root, sub string) (map[string]int, error) {
+	keys := map[string]int{}
 	fset := token.NewFileSet()
 	err := filepath.Walk(filepath.Join(root, sub), func(p string, fi os.FileInfo, err error) error {
 		if err != nil {
@@ -109,12 +137,11 @@ func listFuncKeys(root, sub string) ([]string, error) {
 		rel, _ := filepath.Rel(root, filepath.Dir(p))
 		for _, d := range f.Decls {
 			if fd, ok := d.(*ast.FuncDecl); ok {
-				keys = append(keys, funcKey(filepath.ToSlash(rel), fd))
+				keys[funcKey(filepath.ToSlash(rel), fd)] += countFuncLits(fd)
 			}
 		}
 		return nil
 	})
-	sort.Strings(keys)
 	return keys, err
 }
 
@@ -124,14 +151,17 @@ func newFuncKeys(repo string) map[string]bool {
 	if len(base) == 0 {
 		return nil
 	}
-	keys, err := listFuncKeys(repo, "tars")
+	keys, err := listFuncLits(repo, "tars")
 	if err != nil {
 		return nil
 	}
 	out := map[string]bool{}
-	for _, k := range keys {
-		if !base[k] {
+	for k, n := range keys {
+		if bn, ok := base[k]; !ok {
 			out[k] = true
+		} else if n > bn {
+			// an existing function that gained function literals: its directly called closures are expanded
+			out["lits:"+k] = true
 		}
 	}
 	return out
@@ -164,6 +194,8 @@ type retCtx struct {
 }
 
 type inliner struct {
+	litOK     bool                     // inside a function whose directly called closures are expanded
+	litVars   map[types.Object]*ilHelper // local variables bound once to a function literal and only ever called
 	fset      *token.FileSet
 	files     map[*ast.File]*ilFile
 	helpers   map[*types.Func]*ilHelper
@@ -321,10 +353,27 @@ func (il *inliner) siteCall(f *ilFile, e ast.Expr, tail bool) (*ast.CallExpr, *i
 		}
 		break
 	}
+	if fl, isLit := fun.(*ast.FuncLit); isLit {
+		if !il.litOK || !tail && false {
+			return nil, nil
+		}
+		fd := &ast.FuncDecl{Name: ast.NewIdent("func"), Type: fl.Type, Body: fl.Body}
+		ok, _, tailOnly := inlinableDecl(fd, f)
+		if !ok || (tailOnly && !tail) {
+			return nil, nil
+		}
+		return call, &ilHelper{decl: fd, f: f, tailOnly: tailOnly}
+	}
 	var id *ast.Ident
 	switch x := fun.(type) {
 	case *ast.Ident:
 		id = x
+		if h := il.litVars[f.pkg.TypesInfo.Uses[x]]; h != nil && il.litOK {
+			if h.tailOnly && !tail {
+				return nil, nil
+			}
+			return call, h
+		}
 	case *ast.SelectorExpr:
 		id = x.Sel
 		if sel := f.pkg.TypesInfo.Selections[x]; sel != nil {
@@ -467,9 +516,17 @@ func (il *inliner) expand(f *ilFile, call *ast.CallExpr, h *ilHelper, kind siteK
 		}
 	}
 	// body
-	il.expanding[h.fn] = true
+	savedLit := il.litOK
+	if h.fn != nil {
+		il.expanding[h.fn] = true
+		il.litOK = true
+		il.findLitVars(hf, h.decl)
+	}
 	bodySubs := il.collectStmts(hf, h.decl.Body.List, rc)
-	delete(il.expanding, h.fn)
+	if h.fn != nil {
+		delete(il.expanding, h.fn)
+	}
+	il.litOK = savedLit
 	body := applySubs(hf.src, hf.off(h.decl.Body.Lbrace)+1, hf.off(h.decl.Body.Rbrace), bodySubs)
 
 	var sb strings.Builder
@@ -666,6 +723,13 @@ func (il *inliner) collectStmt(f *ilFile, s ast.Stmt, ret *retCtx, tail bool) []
 		}
 		return il.funcLitSubs(f, x.X)
 	case *ast.AssignStmt:
+		if il.litOK && x.Tok == token.DEFINE && len(x.Lhs) == 1 && len(x.Rhs) == 1 {
+			if id, ok := x.Lhs[0].(*ast.Ident); ok {
+				if h := il.litVars[f.pkg.TypesInfo.Defs[id]]; h != nil {
+					return mk(f.text(s.Pos(), s.End()) + "; _ = " + id.Name)
+				}
+			}
+		}
 		if len(x.Rhs) == 1 && (x.Tok == token.ASSIGN || x.Tok == token.DEFINE) {
 			if call, h := il.siteCall(f, x.Rhs[0], false); h != nil {
 				lhs := f.text(x.Lhs[0].Pos(), x.Lhs[len(x.Lhs)-1].End())
@@ -733,11 +797,17 @@ func (il *inliner) collectStmt(f *ilFile, s ast.Stmt, ret *retCtx, tail bool) []
 		}
 		return out
 	case *ast.DeferStmt:
+		if _, isLit := x.Call.Fun.(*ast.FuncLit); isLit {
+			return il.funcLitSubs(f, x.Call)
+		}
 		if call, h := il.siteCall(f, x.Call, true); h != nil {
 			return mk(il.expand(f, call, h, kDefer, "", "", ret, endLine))
 		}
 		return il.funcLitSubs(f, x.Call)
 	case *ast.GoStmt:
+		if _, isLit := x.Call.Fun.(*ast.FuncLit); isLit {
+			return il.funcLitSubs(f, x.Call)
+		}
 		if call, h := il.siteCall(f, x.Call, true); h != nil {
 			return mk(il.expand(f, call, h, kGo, "", "", ret, endLine))
 		}
@@ -858,7 +928,13 @@ func buildOverlay(dir, root string, newKeys map[string]bool, patterns ...string)
 	if err != nil {
 		return nil, []string{"helper normalisation skipped: " + err.Error()}
 	}
-	il := &inliner{fset: fset, files: map[*ast.File]*ilFile{}, helpers: map[*types.Func]*ilHelper{}, expanding: map[*types.Func]bool{}}
+	il := &inliner{fset: fset, files: map[*ast.File]*ilFile{}, helpers: map[*types.Func]*ilHelper{}, expanding: map[*types.Func]bool{}, litVars: map[types.Object]*ilHelper{}}
+	anyLits := false
+	for k := range newKeys {
+		if strings.HasPrefix(k, "lits:") {
+			anyLits = true
+		}
+	}
 	var roots []*packages.Package
 	for _, p := range pkgs {
 		if len(p.Errors) > 0 || p.TypesInfo == nil {
@@ -899,7 +975,7 @@ func buildOverlay(dir, root string, newKeys map[string]bool, patterns ...string)
 			names = append(names, fn.FullName())
 		}
 	}
-	if len(il.helpers) == 0 {
+	if len(il.helpers) == 0 && !anyLits {
 		return nil, il.notes
 	}
 	// a helper that is used other than by a static call from its own package is an API, not a helper
@@ -929,14 +1005,22 @@ func buildOverlay(dir, root string, newKeys map[string]bool, patterns ...string)
 			if !ok || fd.Body == nil {
 				continue
 			}
+			rel, _ := filepath.Rel(root, filepath.Dir(f.name))
+			key := funcKey(filepath.ToSlash(rel), fd)
+			il.litOK = newKeys[key] || newKeys["lits:"+key]
+			if il.litOK {
+				il.findLitVars(f, fd)
+			}
 			if fn, _ := f.pkg.TypesInfo.Defs[fd.Name].(*types.Func); fn != nil && il.helpers[fn] != nil {
 				// the helper's own body is expanded where it is used; inside itself only nested helpers are expanded
 				il.expanding[fn] = true
 				subs = append(subs, il.collectStmtsT(f, fd.Body.List, nil, true)...)
 				delete(il.expanding, fn)
+				il.litOK = false
 				continue
 			}
 			subs = append(subs, il.collectStmtsT(f, fd.Body.List, nil, true)...)
+			il.litOK = false
 		}
 		if len(subs) == 0 {
 			continue
@@ -948,7 +1032,97 @@ func buildOverlay(dir, root string, newKeys map[string]bool, patterns ...string)
 	}
 	sort.Strings(names)
 	if len(overlay) > 0 {
-		il.notes = append(il.notes, fmt.Sprintf("helper normalisation: %d call site(s) of %d function(s) that are not in the pinned tree expanded in place before analysis: %s", il.sites, len(names), strings.Join(names, ", ")))
+		what := strings.Join(names, ", ")
+		if anyLits {
+			if what != "" {
+				what += "; "
+			}
+			what += "directly called function literals in functions that gained literals since the pinned tree"
+		}
+		il.notes = append(il.notes, fmt.Sprintf("helper normalisation: %d call site(s) of %d new function(s) / local closures expanded in place before analysis: %s", il.sites, len(names), what))
 	}
 	return overlay, il.notes
+}
+
+// findLitVars records the local variables of fd that are bound exactly once (x := func...) to a function
+// literal and are used only as the function of a call: such a closure is a local helper and its calls
+// are expanded like those of a new named helper.
+func (il *inliner) findLitVars(f *ilFile, fd *ast.FuncDecl) {
+	if fd.Body == nil {
+		return
+	}
+	info := f.pkg.TypesInfo
+	cand := map[types.Object]*ast.FuncLit{}
+	ast.Inspect(fd.Body, func(m ast.Node) bool {
+		if as, ok := m.(*ast.AssignStmt); ok && as.Tok == token.DEFINE && len(as.Lhs) == 1 && len(as.Rhs) == 1 {
+			if id, ok := as.Lhs[0].(*ast.Ident); ok {
+				if fl, ok := as.Rhs[0].(*ast.FuncLit); ok {
+					if obj := info.Defs[id]; obj != nil {
+						cand[obj] = fl
+					}
+				}
+			}
+		}
+		return true
+	})
+	if len(cand) == 0 {
+		return
+	}
+	bad := map[types.Object]bool{}
+	callFun := map[*ast.Ident]bool{}
+	ast.Inspect(fd.Body, func(m ast.Node) bool {
+		switch x := m.(type) {
+		case *ast.CallExpr:
+			if id, ok := x.Fun.(*ast.Ident); ok {
+				callFun[id] = true
+			}
+		case *ast.GoStmt:
+			if id, ok := x.Call.Fun.(*ast.Ident); ok {
+				bad[info.Uses[id]] = true
+			}
+		case *ast.DeferStmt:
+			if id, ok := x.Call.Fun.(*ast.Ident); ok {
+				bad[info.Uses[id]] = true
+			}
+		case *ast.AssignStmt:
+			if x.Tok != token.DEFINE {
+				for _, l := range x.Lhs {
+					if id, ok := l.(*ast.Ident); ok {
+						bad[info.Uses[id]] = true
+					}
+				}
+			}
+		}
+		return true
+	})
+	ast.Inspect(fd.Body, func(m ast.Node) bool {
+		if id, ok := m.(*ast.Ident); ok {
+			if obj := info.Uses[id]; obj != nil && cand[obj] != nil && !callFun[id] {
+				bad[obj] = true
+			}
+		}
+		return true
+	})
+	for obj, fl := range cand {
+		if bad[obj] {
+			continue
+		}
+		// a closure that calls itself cannot be expanded
+		rec := false
+		ast.Inspect(fl.Body, func(m ast.Node) bool {
+			if id, ok := m.(*ast.Ident); ok && info.Uses[id] == obj {
+				rec = true
+			}
+			return true
+		})
+		if rec {
+			continue
+		}
+		d := &ast.FuncDecl{Name: ast.NewIdent(obj.Name()), Type: fl.Type, Body: fl.Body}
+		ok, _, tailOnly := inlinableDecl(d, f)
+		if !ok {
+			continue
+		}
+		il.litVars[obj] = &ilHelper{decl: d, f: f, tailOnly: tailOnly}
+	}
 }
